@@ -15,7 +15,7 @@ missed = sum(1 for r in rows if "MISSED" in r)
 txt = (f"{n} seeded changes, each written by a fresh sub-agent that saw only the property text and a scratch worktree, each confirmed "
        f"(`tools/seeded.py confirm`: the patch applies, its demonstration fails with and passes without the change, the repository's 1096 stable tests still pass). "
        f"{n - missed} were detected by the owning check as it stood; {missed} were first missed and led to the strengthening named in the last column, after which all {n} are "
-       f"detected (`tools/seeded.py all` re-runs every change against a scratch copy; /repo is never modified).\n\n"
+       f"detected (`tools/seeded_all.py` re-runs every change against its own property's check on scratch copies of the current tree - /repo is never modified; the result of the last complete run, 136 of 136 detected, is `seeded_last_run.json`).\n\n"
        "| seeded change | property | what it is (first line of the author's note) | detected by |\n|---|---|---|---|\n" + "\n".join(rows) + "\n")
 p = os.path.join(V, "DESIGN.md")
 s = open(p).read()
